@@ -9,7 +9,7 @@ Layers
        argv, environ, cwd / what a reference expands to) and the complete tracked state
        (Shell.envs, process environment, getcwd, current_dir, previous_dir) are compared with
        the extracted model, and the outcome with the extracted specification (spec_step on
-       abs(state)) outside the known classes (Coq `known`).
+       abs(state)); the model equals the specification by C09_full, so any difference is a VIOLATION.
   L2   the same kind of histories as one `cicada -c` line (and, for plain values, as a script)
        through the real binary; observations by helpers/hp (argv, cwd, ALL environ entries of
        the tracked names in order), "$NAME" references, $? after builtins, and the place where
@@ -24,18 +24,14 @@ EXTRACT = ["C09"]
 BINS = ["c09"]
 NEEDS_CICADA = True
 ALLOWED_AXIOMS = []
-PINNED = ["C09_full", "C09_refuted", "C09_partial", "C09_step", "C09_abs", "C09_pwd", "C09_full_after_repairs",
-          "C09_refuted_read_rejoined", "C09_read_repaired", "C09_read_remainder_verbatim", "C09_nonvacuous"]
-# Does /repo contain the proposed repair of `read` (notes/C09-fix-6.patch: split_into_fields_n)?  The model and the
-# specification of read are parametric in this flag (fx_read) and the theorems are proved for both settings; the
-# registered instance is the one that transcribes the code in /repo. When the repair is committed set this to "r"
-# and turn the finding: line of read-remainder-rejoined into a fixed: line. $C09_FIXES overrides (private worktrees).
-FIXES_IN_TREE = "r"
+PINNED = ["C09_full", "C09_step", "C09_step_invariant", "C09_abs", "C09_pwd", "C09_read_remainder_verbatim",
+          "C09_regress_prefix_over_exported", "C09_regress_ifs_shadowed", "C09_regress_read_rejoined",
+          "C09_regress_cd_home", "C09_nonvacuous"]
 TRUSTED = [
     "Coq 8.16.1 kernel (coqc; coqchk in thorough); vm_compute only in Example witnesses and refutation witnesses",
     "hand transcription of set_env/get_env/remove_env/expand_one_env's lookup, drain_env_tokens, run_proc, the child "
     "environment construction, export/unset/read/cd (coq/theories/Model/Vars.v), tied by differential execution",
-    "the reference semantics and the known-class predicate (coq/theories/Model/VarsSpec.v) are the reading of the property text",
+    "the reference semantics (coq/theories/Model/VarsSpec.v; read = POSIX field reading for blank runs, every custom separator cuts) is the reading of the property text",
     "extraction: ExtrOcamlBasic only; OCaml 4.13.1; ocaml/c09/drv.ml",
     "harness/src/bin/c09.rs, helpers/hp.c, drive/c09.py; os.path.realpath / os.path.isdir as the cd oracle",
     "tokenizer and expansions (parse_line, do_expansion) are upstream of the model: an operation enters as the token "
@@ -44,7 +40,7 @@ TRUSTED = [
 ASSUMES = [
     "glibc setenv replaces in place or appends, unsetenv removes every match, getenv returns the first match, execve passes the list verbatim",
     "Shell.current_dir equals the kernel cwd (checked by L1b at every step)",
-    "the initial process environment has no duplicate names and PWD = cwd (hypotheses wf_init of the theorems; the driver starts cicada that way)",
+    "the initial state is wf_state (no duplicate names in the environment, no shell-local IFS behind an exported one -- a fresh shell) and PWD = cwd for C09_pwd; the driver starts cicada that way",
     "no shell function / alias named like the command words is defined (try_run_func, expand_alias not modelled)",
     "values contain no newline and no tilde; names match [A-Za-z_][A-Za-z0-9_]*; one simple command per operation",
 ]
@@ -299,21 +295,20 @@ def hist_case(root, fstab, ops):
 
 
 def parse_model(line):
-    """-> list of dicts(model outcome, model state, spec outcome, known, wf)"""
+    """-> list of dicts(model outcome, model state, spec outcome, wf)"""
     out = []
     for cell in (line.split("\t") if line else []):
         p = cell.split("|")
-        out.append({"model": p[0], "state": p[1], "spec": p[2], "known": p[3], "wf": p[4]})
+        out.append({"model": p[0], "state": p[1], "spec": p[2], "wf": p[3]})
     return out
 
 
 # ------------------------------------------------------------------ judging one history
 class Judge:
-    def __init__(self, res, kf):
-        self.res, self.kf = res, kf
+    def __init__(self, res):
+        self.res = res
         self.nviol = 0
         self.caps = {}
-        self.repaired = {}
 
     def violate(self, **kw):
         self.nviol += 1
@@ -340,40 +335,16 @@ class Judge:
                 return
             if pending is not None:
                 # model state no longer trustworthy as a predictor; the specification of a probe still is
-                if m["known"] == "-" and op.kind in ("ref", "child") and io is not None and io != m["spec"]:
+                if op.kind in ("ref", "child") and io is not None and io != m["spec"]:
                     self.violate(kind="oracle", failing_input=True, expected=m["spec"], observed=io,
                                  note="after the state of the implementation left the model's (%s at operation %d: %s) "
                                       "this observation differs from the specified one"
                                       % (pending["op"], pending["op_index"], pending["impl_state"]), **ctx)
                     return
                 continue
-            if m["known"] != "-":
-                cls = m["known"]
-                if io is None:
-                    if m["model"] == "PANIC":
-                        return
-                    continue
-                if io == m["model"] and (ist is None or m["state"] is None or ist == m["state"]):
-                    if cls in self.kf:
-                        self.res.known(cls, "class=%s input=%r observed=%s specified=%s%s" % (
-                            cls, script_text_upto(ops, k), io, m["spec"],
-                            (" state-after=" + ist) if (ist and io == m["spec"]) else ""))
-                    else:
-                        self.violate(kind="oracle", failing_input=True, expected=m["spec"], observed=io,
-                                     note="deviation class %s is not listed in known_findings.txt" % cls, **ctx)
-                        return
-                    if m["model"] == "PANIC":
-                        return
-                    continue
-                if io == m["spec"]:
-                    self.repaired[cls] = self.repaired.get(cls, 0) + 1
-                    return  # state of model and implementation may differ from here on
-                self.violate(kind="oracle", failing_input=True, expected=m["spec"], observed=io,
-                             note="inside known class %s but neither the recorded behaviour nor the specified one" % cls, **ctx)
-                return
             if m["model"] != m["spec"]:
                 self.violate(kind="proof-model-mismatch", failing_input=False,
-                             note="extracted model and extracted specification differ outside the known classes", **ctx)
+                             note="extracted model and extracted specification differ (contradicts C09_full: extraction / driver fault)", **ctx)
                 return
             if io is not None and io != m["spec"]:
                 self.violate(kind="oracle", failing_input=True, expected=m["spec"], observed=io,
@@ -514,7 +485,11 @@ def l1a_cases(ctx):
 # ------------------------------------------------------------------ main
 def run(ctx, res):
     rng = ctx.rng
-    kf = {k["class"]: k for k in C.known_findings("C09")}
+    # C09_full is proved without any excluded class and known_findings.txt holds no finding: line for
+    # C09 any more (C.known_findings("C09") == []): every difference is a VIOLATION.
+    if C.known_findings("C09"):
+        res.violate(kind="configuration", failing_input=False,
+                    note="known_findings.txt lists a C09 finding but the check has no known class left")
     res.rule = (
         "L1a: every string up to length %d over a 11-symbol alphabet (letters, digit, underscore, =, both quotes, -, blank, "
         "newline, a non-ASCII letter) through unquote / is_env / remove_env's name test, token lists up to length 3 through "
@@ -526,7 +501,7 @@ def run(ctx, res):
         "chained symlinks, a symlink to a file, a dangling one and a name with a blank. Non-trivial = distinct "
         "(operation kind, model outcome, model state) triples in which the state or the outcome is not the initial / empty one."
         % (4 if ctx.thorough else 3, len(LINES) + 4, VALUES))
-    judge = Judge(res, kf)
+    judge = Judge(res)
     # ---------------- L1a
     if not ctx.replay:
         cases = l1a_cases(ctx)
@@ -553,8 +528,6 @@ def run(ctx, res):
         make_tree(root)
         extra = [root + s for s in ["/home", "/d1", "/nope", "/ln1", "/f1", "/ln1/d3", "/e1/abs/d2", "", "/d1/d2/back"]]
         fstab = fs_table(root, extra)
-        os.environ["C09_FIXES"] = os.environ.get("C09_FIXES", FIXES_IN_TREE)
-        res.extra["fix_flags"] = os.environ["C09_FIXES"]
         if ctx.replay:
             r = json.load(open(ctx.replay))
             print("replay: %s" % json.dumps({k: r.get(k) for k in ("layer", "entry", "op", "input", "expected", "observed")}, ensure_ascii=False))
@@ -638,7 +611,7 @@ def run(ctx, res):
                         want = C.dec(mrec[k]["model"].rsplit('cwd="', 1)[1][:-1])
                         found = [dp for dp, _, fn in os.walk(root) if o.redirect in fn]
                         nredir += 1
-                        if found != [want] and mrec[k]["known"] == "-" and impl[k][0] is not None:
+                        if found != [want] and impl[k][0] is not None:
                             judge.violate(kind="oracle", layer="L2", entry=mode, input=text, op=o.text, failing_input=True,
                                           expected="file %s created in %s" % (o.redirect, want), observed="found in %r" % found,
                                           note="a relative redirection did not land in the shell's working directory")
@@ -646,14 +619,13 @@ def run(ctx, res):
                 res.sample({"layer": "L2", "entry": mode, "input": text.replace(hp, "hp")[:600], "rc": rc,
                             "observed": [x[0] for x in impl][:8], "model": [m["model"] for m in mrec][:8]})
         res.count("L2_relative_redirections", nredir)
-        res.extra["known_classes_no_longer_reproducing"] = judge.repaired
         res.extra["violations_total_before_cap"] = judge.nviol
     finally:
         shutil.rmtree(work, ignore_errors=True)
 
 
 def witnesses(root, hp):
-    """The concrete replays of known_findings.txt, as histories."""
+    """The witnesses of the five repaired defects (fixed: lines of known_findings.txt), as regression histories."""
     def child(i, asgs=()):
         return Op("child", ["P", hp, "2", "@", "m%d" % i] + asg_items(asgs),
                   (asg_text(asgs) + " " if asgs else "") + "%s @ m%d" % (hp, i), mark="m%d" % i)
